@@ -151,8 +151,6 @@ R["ibldsp.voltage.agc"] = [
 for _f in ("fk", "kfilt", "car"):
     R[f"ibldsp.voltage.{_f}"] = [
         ("V__ = numpy.zeros_like(x)", {"V__": "xout"}),
-        ("for V__ in numpy.unique(collection): pass", {"V__": "c"}),
-        ("V__ = collection == c", {"V__": "sel"}),
     ]
 for _f in ("fk", "kfilt"):
     R[f"ibldsp.voltage.{_f}"] += [
